@@ -2,6 +2,7 @@
 from __future__ import annotations
 import ast
 import re
+from ..pat import Frag
 from ..src import norm, walk_no_nested, AnalysisError
 from ..consts import const, Unknown, evaluate, module_consts
 from ..pyutil import parents
@@ -70,7 +71,7 @@ def r1_header(ctx, res):
     for v, s in schemas.items():
         if doctypes.get(doctype.format(schema=s)) != v:
             res.find(key + f':{v}', lmf.relpath, f'the DOCTYPE line of version {v} (as dump() prints it) is not accepted as version {v}')
-    src = norm(rh.node)
+    src = Frag(rh.node)
     key = 'read-header-shape'
     res.inst(key, lmf.loc(rh.node), 'compares the declaration with _XMLDECL and looks the DOCTYPE up in _DOCTYPES')
     need = ['if xmldecl != _XMLDECL', 'if doctype_decoded not in _DOCTYPES', 'return _DOCTYPES[doctype_decoded]']
@@ -114,7 +115,7 @@ def r2_reader_rejects(ctx, res):
             res.find(key, lmf.loc(st), 'the store `parent[key] = attrs` is not dominated by `key is not None and key not in parent` with a '
                                        'raise on the other branch: an element unknown in the declared version, or a repeated single-valued '
                                        'child, is accepted (the repeat silently overwrites the first)')
-    src = norm(start.node)
+    src = Frag(start.node)
     key = 'start-handler:key-from-version-table'
     res.inst(key, lmf.loc(start.node), 'key = ELEMS.get(name)')
     if 'key = ELEMS.get(name)' not in src or 'ELEMS = _VALID_ELEMS[version]' not in norm(mp.node):
@@ -383,7 +384,7 @@ def r4_scan_equals_load(ctx, res):
     if names != {'Lexicon', 'LexiconExtension', 'Extends'}:
         res.find(key, lmf.loc(tnode), f'scan_lexicons looks at elements {sorted(names)}; the loader builds lexicons from Lexicon, '
                                       f'LexiconExtension and their Extends child')
-    src = norm(f.node)
+    src = Frag(f.node)
     key = 'scan:extends-attached-to-last'
     res.inst(key, lmf.loc(f.node), "infos[-1]['extends'] = {...}")
     if "infos[-1]['extends']" not in src or 'infos.append(info)' not in src:
@@ -392,7 +393,7 @@ def r4_scan_equals_load(ctx, res):
     al = ctx.repo.func('_add', '_add_lmf')
     key = 'scan:used-by-add'
     res.inst(key, al.module.loc(al.node), 'infos = lmf.scan_lexicons(source); skipmap = _precheck(infos, progress)')
-    s2 = norm(al.node)
+    s2 = Frag(al.node)
     if 'infos = lmf.scan_lexicons(source)' not in s2 or '_precheck(infos, progress)' not in s2:
         res.find(key, al.module.loc(al.node), '_add_lmf no longer decides what to skip from scan_lexicons + _precheck')
 
